@@ -6,7 +6,8 @@
 (* handed over and the projected state of the real connection afterwards.         *)
 (* Until the specification's receiver fails the connection the logged state must  *)
 (* be exactly the specification's; once it does, the property only asks that the  *)
-(* real connection failed too and handed over nothing altered.                    *)
+(* real connection failed too and handed over nothing altered (it may also fail   *)
+(* earlier, once the flipped bit has been read).                                  *)
 EXTENDS Segments, TraceLib
 
 VARIABLES tid, l
@@ -19,7 +20,7 @@ Recs(s) == [j \in 1..Len(s) |-> Rec(s[j])]
 Ints(s) == [j \in 1..Len(s) |-> s[j]]
 
 Post(p) ==
-    IF defunct'
+    IF defunct' \/ (p.defunct /\ corrupt.seg # 0 /\ p.seen)      \* failed (possibly early, flipped bit already read)
     THEN /\ p.defunct
          /\ p.altered = 0
          /\ \A j \in 1..Len(p.delivered) : p.delivered[j].exact
